@@ -3509,8 +3509,7 @@ def cpuid(_, instr):
 
 
 def bittest_get(ir, instr, src, index):
-    index = index.zeroExtend(src.size)
-    if isinstance(src, m2_expr.ExprMem):
+    if isinstance(src, m2_expr.ExprMem) and not index.is_int():
         b_mask = {16: 4, 32: 5, 64: 6}
         b_decal = {16: 1, 32: 3, 64: 7}
         ptr = src.ptr
@@ -3521,8 +3520,18 @@ def bittest_get(ir, instr, src, index):
         off_bit = index.zeroExtend(
             src.size) & m2_expr.ExprInt((1 << b_mask[src.size]) - 1,
                                         src.size)
-        off_byte = ((index.zeroExtend(ptr.size) >> m2_expr.ExprInt(3, ptr.size)) &
-                    m2_expr.ExprInt(((1 << src.size) - 1) ^ b_decal[src.size], ptr.size))
+        # The bit offset held by a register is signed: move its sign bit to
+        # the top of the pointer, then shift it back arithmetically
+        if index.size < ptr.size:
+            pad = ptr.size - index.size
+            index_ptr = (index.zeroExtend(ptr.size) <<
+                         m2_expr.ExprInt(pad, ptr.size))
+        else:
+            pad = 0
+            index_ptr = index[:ptr.size]
+        off_byte = (m2_expr.ExprOp("a>>", index_ptr,
+                                   m2_expr.ExprInt(pad + 3, ptr.size)) &
+                    m2_expr.ExprInt(((1 << ptr.size) - 1) ^ b_decal[src.size], ptr.size))
 
         addr = ptr + off_byte
         if segm:
@@ -3530,6 +3539,9 @@ def bittest_get(ir, instr, src, index):
 
         d = ir.ExprMem(addr, src.size)
     else:
+        # Register operand or immediate bit offset: the offset is taken
+        # modulo the operand size
+        index = index.zeroExtend(src.size)
         off_bit = m2_expr.ExprOp(
             '&', index, m2_expr.ExprInt(src.size - 1, src.size))
         d = src
@@ -3538,7 +3550,6 @@ def bittest_get(ir, instr, src, index):
 
 def bt(ir, instr, src, index):
     e = []
-    index = index.zeroExtend(src.size)
     d, off_bit = bittest_get(ir, instr, src, index)
     d = d >> off_bit
     e.append(m2_expr.ExprAssign(cf, d[:1]))
